@@ -200,7 +200,7 @@ impl<'a> Run<'a> {
                     if k >= data.len() || k > room {
                         // the iterator ends (or the buffer refuses) before the panic point: an ordinary extend
                         let r = b.extend(data.iter().cloned());
-                        let now = capacity - b.remaining();
+                        let now = capacity.saturating_sub(b.remaining());
                         let expect = data.len().min(room);
                         if r.is_ok() != (data.len() <= room) || now != model.len() + expect {
                             self.viol = Some(v("count-wrong", &[("call", "extend")], format!("extend of {} bytes into {} remaining: ok={} count {} (expected {})", data.len(), room, r.is_ok(), now, model.len() + expect)));
@@ -247,7 +247,7 @@ impl<'a> Run<'a> {
                     let data = bytes(self.cfg.seed, salt, len as usize);
                     let is_ext = matches!(op, BufOp::Extend { .. });
                     let r: Result<(), CapacityError> = if is_ext { b.extend(data.iter().cloned()) } else { b.write(&data) };
-                    let now = capacity - b.remaining();
+                    let now = capacity.saturating_sub(b.remaining());
                     match r {
                         Ok(()) => {
                             if data.len() > remaining_before {
@@ -285,7 +285,7 @@ impl<'a> Run<'a> {
                     let expect_n = k.unwrap_or(data.len()).min(data.len()).min(remaining_before);
                     let mut rd = DirectReader { data: data.clone(), fail_after: k };
                     let r = rd.read_buffer(&mut *b).map(|s| s.to_vec());
-                    let now = capacity - b.remaining();
+                    let now = capacity.saturating_sub(b.remaining());
                     self.stats.direct_reads += 1;
                     if failing {
                         self.stats.read_faults[4] += 1;
@@ -312,7 +312,7 @@ impl<'a> Run<'a> {
                     let fault = fault % 7;
                     let mut rd = SimReader { data: data.clone(), fault, rng: Prng::new(mix(self.cfg.seed, salt as u64, 7)) };
                     let r = rd.read_buffer(&mut *b).map(|s| s.to_vec());
-                    let now = capacity - b.remaining();
+                    let now = capacity.saturating_sub(b.remaining());
                     self.stats.read_faults[fault as usize] += 1;
                     match r {
                         Ok(got) => {
@@ -347,7 +347,7 @@ impl<'a> Run<'a> {
                     let data = bytes(self.cfg.seed, salt, len as usize);
                     let kept: Vec<u8> = data.iter().cloned().filter(|b| b % 3 != 0).collect();
                     let r = b.extend(data.iter().cloned().filter(|b| b % 3 != 0));
-                    let now = capacity - b.remaining();
+                    let now = capacity.saturating_sub(b.remaining());
                     match r {
                         Ok(()) => {
                             if kept.len() > remaining_before {
@@ -384,7 +384,7 @@ impl<'a> Run<'a> {
                             None => drop((&mut *b).to_to_buffer_ref()),
                         }
                     }
-                    let now = capacity - b.remaining();
+                    let now = capacity.saturating_sub(b.remaining());
                     if now != model.len() {
                         self.viol = Some(v("unused-view-changed-container", &[("store", "nested")], format!("dropping an unused nested view changed the parent's initialized count from {} to {}", model.len(), now)));
                         return;
@@ -412,7 +412,7 @@ impl<'a> Run<'a> {
                         return;
                     }
                     // the parent's count grows by exactly what the nested view initialized
-                    let now = capacity - b.remaining();
+                    let now = capacity.saturating_sub(b.remaining());
                     if now != model.len() + inner_model.len() {
                         self.viol = Some(v("nested-release-count-wrong", &[("capped", if cap_at.is_some() { "yes" } else { "no" })], format!("after releasing a nested view that initialized {} bytes the parent counts {} (before {})", inner_model.len(), now, model.len())));
                         return;
@@ -429,7 +429,7 @@ impl<'a> Run<'a> {
                             self.viol = Some(v("overflow-accepted", &[("call", "write")], format!("writing {} bytes into {} remaining returned Ok", data.len(), remaining_before)));
                             return;
                         }
-                        let now = capacity - b.remaining();
+                        let now = capacity.saturating_sub(b.remaining());
                         if now > capacity || now < model.len() {
                             self.viol = Some(v("count-wrong", &[("call", "refused-write")], format!("count {} after refused write (capacity {})", now, capacity)));
                             return;
